@@ -14,11 +14,16 @@ EPS = np.finfo(float).eps
 # ---------------------------------------------------------------------------
 def dense_bfgs(S, Y, theta, n):
     """B0 = theta I, then direct BFGS updates with pairs oldest -> newest."""
-    B = theta * np.eye(n)
+    # carried in extended precision: the recursion itself cancels badly when a pair has s nearly orthogonal to y (thorough sweep, seed 2:
+    # cos(s, y) = 6e-4 made the double-precision recursion wrong by 1e-7 while the compact form was right to 1e-11 against exact
+    # rational arithmetic) and the reference must not be the less accurate side of a comparison
+    L = np.longdouble
+    B = L(theta) * np.eye(n, dtype=L)
     for s, y in zip(S, Y):
+        s, y = np.asarray(s, dtype=L), np.asarray(y, dtype=L)
         Bs = B @ s
         B = B - np.outer(Bs, Bs) / (s @ Bs) + np.outer(y, y) / (y @ s)
-    return B
+    return np.asarray(B, dtype=float)
 
 
 def has_pairs(mats):
